@@ -1,8 +1,33 @@
 """Configuration of ./check C19 (see lib/registry.py for the fields)."""
-DEBUG = dict(
-    claim="under construction",
-    props="Props/C08.v", theorems=[],
+CFG = dict(
+    claim="PARTIAL (see level_note). Theorems in coq/Props/C19.v, over all label sequences of the small-step models of "
+          "Model/Transports.v and for every codec: channel transport = FIFO, each call returns once, a blocked Read/Write is "
+          "blocked only with a live context (C19_chan_fifo/_once/_blocked_write/_blocked_read); WebSocket Read/Write logic: the "
+          "results of the Reads are in order the classification of the frames sent, a frame is delivered iff binary and decodable, "
+          "as the decoded value (C19_ws_results/_deliver_iff/_delivered/_blocked_read); HTTP: 400 iff body absent / unreadable / "
+          "undecodable / no header / empty source / unmappable source, never delivered then, else delivered at most once to a Read "
+          "of the connection of the mapped address as the decoded value, announced once per connection, no reachable state is "
+          "Crashed, one cleaner pass removes exactly the connections idle >= timeout and closes their done channel, blocked "
+          "Read/Write/parked request only under the stated conditions (C19_http_*). The protobuf wire format of the Rpc schema is "
+          "modelled byte by byte (Model/WireFormat.v) with the proved round trip C19_wire_roundtrip: forall e, wf e -> decode "
+          "(encode e) = Some e, which retires the codec assumption: C19_ws_end_to_end / C19_http_end_to_end state that what is "
+          "written is what is read, in order. Every run drives the real NewGoatOverChannel, goatOverWebsocket (over coder/websocket "
+          "on an in-memory byte stream) and GoatOverHttp (ServeHTTP + clockwork fake clock) lock-step in synctest bubbles and the "
+          "real proto.Marshal/Unmarshal against the models.",
+    level_note="Closed under the global context (no axioms). PARTIAL: github.com/coder/websocket, net/http, the OS sockets and the "
+               "Go runtime's channels/select are environment (modelled, validated by the lock-step rigs, not verified); the "
+               "generated Rpc code and google.golang.org/protobuf are tied to Model/WireFormat.v differentially (byte-exact "
+               "Marshal, accept/reject + value of Unmarshal on generated, hand-written, mutated and random inputs), not verified "
+               "from source; unknown fields kept by Go are dropped by the model (known-field projection compared). The WebSocket "
+               "connection's read limit is the caller's (rigs lift it: finding ws-default-read-limit).",
+    props="Props/C19.v",
     go_tags="tr",
+    theorems=["C19_wire_roundtrip", "C19_wire_injective", "C19_chan_fifo", "C19_chan_once", "C19_chan_blocked_write",
+              "C19_chan_blocked_read", "C19_ws_results", "C19_ws_deliver_iff", "C19_ws_delivered", "C19_ws_blocked_read",
+              "C19_ws_end_to_end", "C19_http_400_iff", "C19_http_classify", "C19_http_rejected_not_delivered",
+              "C19_http_delivery_correct", "C19_http_at_most_once", "C19_http_announce_once", "C19_http_post_step",
+              "C19_http_no_crash", "C19_http_idle", "C19_http_blocked_read", "C19_http_parked_request",
+              "C19_http_blocked_write", "C19_http_cleaner_settled", "C19_http_end_to_end"],
     imports=["Base.Bytes", "Model.WireFormat", "Model.Transports", "Check.C19c"],
     case_type="c19case", find_bad_from="find_bad_from",
     rigs=[dict(test="TestC19Wire", timeout_quick=300, timeout_thorough=1200),
@@ -10,5 +35,22 @@ DEBUG = dict(
           dict(test="TestC19Ws", timeout_quick=300, timeout_thorough=1200),
           dict(test="TestC19Http", timeout_quick=300, timeout_thorough=1200),
           dict(test="TestC19HttpE2E", timeout_quick=300, timeout_thorough=1200)],
-    reason_text={"1": "implementation differs from the Gallina model", "2": "property predicate false on the observed history"},
-    rule="debug")
+    reason_text={"1": "the real transport / codec differs from the Gallina model (Model/Transports.v, Model/WireFormat.v): no "
+                      "quiescent model state predicts the observation, or encode/decode differ from proto.Marshal/Unmarshal",
+                 "2": "the observed history violates the property predicate (Check/C19c.v: round trip, spec_chan, spec_ws, "
+                      "spec_http, CAssert)",
+                 "3": "a Read/Write whose context is done was still blocked at quiescence (spec_chan_ctx)"},
+    rule="wire: every present/absent combination of the 5 sub-messages x ids {0,1,127,128,...,2^63,2^64-1} x bodies {0,1,17,300,"
+         "64KiB (thorough: 1MiB)} x empty/ASCII/non-ASCII/NUL/long strings x repeated fields 0..5, invalid UTF-8 in every string "
+         "field, ~70 hand-written corners of the wire format, seeded mutations of valid encodings, random bytes; channel: ALL "
+         "action sequences of length <= 4 (thorough 5) over {Write, Read (live / cancelled ctx), cancel of any blocked call, close} "
+         "for capacities 0,1,2; WebSocket: every generated envelope written and read, ALL sequences of length <= 3 (thorough 4) "
+         "over {Write, text frame, garbage / unusual / invalid binary frames, Read, cancel, break}, seeded random longer ones; HTTP: "
+         "every request shape alone and with a waiting reader, ALL sequences of length <= 4 (thorough 5) over {valid posts to two "
+         "sources of one address, invalid post, tick, half tick, NewConnection, Read, failing Write, cancel}, seeded random longer "
+         "ones over 3 clock settings incl. Stop and cancelled Writes; end-to-end over loopback HTTP with the envelope generator; "
+         "non-trivial = distinct description hash",
+    assumptions=["coder/websocket, net/http, clockwork, Go channels/select and the scheduler are modelled, not verified",
+                 "google.golang.org/protobuf and the generated Rpc code are validated against Model/WireFormat.v on every run, not verified from source",
+                 "SourceToAddress / OnConnect callbacks and the HTTP peer are environment actions of the model"],
+)
